@@ -178,7 +178,14 @@ namespace bloch::runtime {
                 p1 += std::norm(m_state[i]);
         std::uniform_real_distribution<double> dist(0.0, 1.0);
         double r = dist(rng);
+#ifdef BLOCH_VERIF
+        if (g_verifDraw)
+            r = g_verifDraw();
+#endif
         int res = r < p1 ? 1 : 0;
+#ifdef BLOCH_VERIF
+        m_verifOutcomes.push_back({'r', q, res, p1, r});
+#endif
         double norm = std::sqrt(res ? p1 : 1 - p1);
         for (size_t i = 0; i < m_state.size(); ++i) {
             if (((i & bit) ? 1 : 0) != res)
